@@ -1,0 +1,8 @@
+//go:build !verif
+
+package evm
+
+import "github.com/dappledger/AnnChain/eth/common"
+
+// verifAccountOrder leaves the map iteration order as it is.
+func verifAccountOrder(addrs []common.Address) []common.Address { return addrs }
